@@ -2,7 +2,9 @@
 # usage: tools/mut.sh <check-id> <file-in-repo> <python-regex> <replacement>   -- applies one substitution (first match), runs quick check, reverts
 set -u
 id=$1; f=$2; pat=$3; rep=$4
-cd /repo
+# VERIF_REPO=<scratch worktree> runs the experiment there instead of /repo (safe to run in parallel)
+REPO=${VERIF_REPO:-/repo}
+cd $REPO
 if [ -n "$(git status --porcelain)" ]; then echo "repo dirty"; exit 3; fi
 python3 - "$f" "$pat" "$rep" <<'PY'
 import re,sys
@@ -20,4 +22,4 @@ for c in ${id//,/ }; do
 ./check $c 2>/dev/null | grep -E "VIOLATION|OK|KNOWN" | head -3
 echo "check $c rc=${PIPESTATUS[0]}"
 done
-git -C /repo checkout -- .
+git -C $REPO checkout -- .
